@@ -51,8 +51,8 @@ def write_replay(pid, obname, clause, payload):
 def finding_matches(k, pid, obname, clause):
     if k.get("property") != pid:
         return False
-    if k.get("obligation") and k["obligation"] != obname:
-        return False
+    if not k.get("obligation") or k["obligation"] != obname:
+        return False      # entries keyed by a bounded check never match an obligation
     if k.get("clauses") and clause not in k["clauses"]:
         return False
     return True
